@@ -79,7 +79,11 @@ Walk(r, i, o) ==
   ELSE LET ev == r.events[i]
            \* an event about something that is not a key of the graph cannot be explained at all
            b  == IF "k" \in DOMAIN ev /\ ev.e # "finish" /\ ev.k \notin Keys(r.cfg)
-                 THEN (IF ev.e = "fail" THEN {"RaisedIsReal"} ELSE {"UnknownEvent"})
+                 THEN (IF ev.e = "fail"
+                       THEN \* the call raised something that is no task's exception; if no needed task
+                            \* fails at all, the caller was owed a value (C01), otherwise C04
+                            (IF Fails(r.cfg) \cap NeededTasks(r.cfg) = {} THEN {"ReturnedValue"} ELSE {"RaisedIsReal"})
+                       ELSE {"UnknownEvent"})
                  ELSE EventBad(r, o, ev) IN
        IF b # {} THEN b ELSE Walk(r, i + 1, Upd(o, r.events[i]))
 
